@@ -52,3 +52,13 @@ Theorem C14_generic_visit_is_preorder : forall (P: Type) f (v: value P),
   spec_visit P (fun _ => H_generic) f v = option_map (map (fun c => (c, false))) (preorder P f v).
 Proof. exact generic_visit_is_preorder. Qed.
 Print Assumptions C14_generic_visit_is_preorder.
+
+(* show() prints exactly one line per reachable node: for every AST whose header lines (class name, attribute
+   values as show renders them, coordinate text) contain no newline, every offset and every combination of
+   show's options, the number of newlines in the output = the number of nodes of the pre-order traversal *)
+From PV Require Import ShowProofs.
+Theorem C14_show_one_line_per_node : forall (P: Type) pr coord_str o f offset my_name (v: value P) out,
+  show P pr coord_str o f offset my_name v = Some out -> headers_ok P pr coord_str o f offset my_name v ->
+  exists nodes, preorder P f v = Some nodes /\ nl out = length nodes.
+Proof. exact show_one_line_per_node. Qed.
+Print Assumptions C14_show_one_line_per_node.
